@@ -4,6 +4,9 @@ From TL Require Import Lib.Base.
 (* predicate kinds found in the CLI filters: rule_id.startswith(n) / n in rule_id / rule_id == n *)
 Inductive fkind := FStartswith | FContains | FEq.
 
+(* atoms of the name-based exemption predicates: name.startswith(n) / name.endswith(n) / n in name / name == n *)
+Inductive nkind := NStarts | NEnds | NContains | NEq.
+
 (* base class of a rule: MultiLanguageLintRule / PythonOnlyLintRule / BaseLintRule *)
 Inductive rkind := KMulti | KPyOnly | KBase.
 
